@@ -15,6 +15,7 @@ int getln(substdio *ss, stralloc *sa, int *match, int sep)
   for (;;) {
     char ch;
     int c = ideal_getc(ss);
+    ss->p = (c == -1) ? 0 : 1;      /* ghost of the read buffer, see ideal_substdio.c substdio_get */
     if (c == -2) return -1;
     if (c == -1) { *match = 0; return 0; }
     ch = (char) c;
@@ -44,6 +45,7 @@ int getln2(substdio *ss, stralloc *sa, char **cont, unsigned int *clen, int sep)
   sa->len = 0;
   for (;;) {
     int c = ideal_getc(ss);
+    ss->p = (c == -1) ? 0 : 1;      /* ghost of the read buffer, see ideal_substdio.c substdio_get */
     if (c == -2) return -1;
     if (c == -1) break;
     if (n >= IDEAL_LINE_MAX) return -1;            /* harness sizing: treated as out of memory */
